@@ -26,8 +26,14 @@ type Lossy struct {
 	// ErrDelay is slept before every ErrIO after the first (0: a failing descriptor answers at once).
 	ErrDelay time.Duration
 
+	// CloseAt >= 0: once that many bytes have been delivered a third party closes the transport
+	// (the simulator's Close is called from outside the library); reads and writes then fail the way
+	// the closed simulator makes them fail, and that counts as a loss.
+	CloseAt int
+
 	mu        sync.Mutex
 	openFail  bool
+	tpClosed  bool
 	readLost  error     // sticky read-side failure
 	writeLost bool      // sticky write-side failure
 	LossAt    time.Time // first time the transport reported the loss (zero: not yet)
@@ -37,7 +43,7 @@ type Lossy struct {
 
 // NewLossy wraps inner, whose byte pipe is p.
 func NewLossy(inner transport.Implementation, p *Pipe) *Lossy {
-	return &Lossy{Inner: inner, P: p, ErrDelay: 100 * time.Microsecond}
+	return &Lossy{Inner: inner, P: p, ErrDelay: 100 * time.Microsecond, CloseAt: -1}
 }
 
 // ErrRefused is what Open returns while OpenFail is set (the device refuses a new connection).
@@ -83,6 +89,19 @@ func (l *Lossy) Read(n int) ([]byte, error) {
 	}
 	l.mu.Unlock()
 	b, err := l.Inner.Read(n)
+	if err == nil && l.CloseAt >= 0 {
+		l.P.Mu.Lock()
+		hit := l.P.Delivered >= l.CloseAt
+		l.P.Mu.Unlock()
+		l.mu.Lock()
+		if hit && !l.tpClosed {
+			l.tpClosed = true
+			l.mu.Unlock()
+			_ = l.Inner.Close()
+		} else {
+			l.mu.Unlock()
+		}
+	}
 	if err != nil {
 		l.mu.Lock()
 		// a Close (not a fault) also makes the pipe return EOF/ErrIO: that is not a loss
@@ -90,7 +109,7 @@ func (l *Lossy) Read(n int) ([]byte, error) {
 		l.P.Mu.Lock()
 		closed = l.P.Closed
 		l.P.Mu.Unlock()
-		if !closed {
+		if !closed || l.tpClosed {
 			if errors.Is(err, io.EOF) && l.EOFErr != nil {
 				err = l.EOFErr
 			} else if !errors.Is(err, io.EOF) && l.ReadErr != nil {
@@ -137,4 +156,108 @@ func (l *Lossy) Loss() (time.Time, string) {
 	l.mu.Lock()
 	defer l.mu.Unlock()
 	return l.LossAt, l.LossKind
+}
+
+// C06Login is a login device on top of a Pipe that makes channel.Open authenticate in-channel:
+// telnet flavour ("login:" -> user name, echoed -> "Password:" -> password, not echoed -> prompt) or
+// SSH flavour (the ssh client's "user@host's password:" -> password -> prompt). After the login it
+// is a plain echoing CLI whose commands print Out.
+type C06Login struct {
+	*Pipe
+	SSH        bool
+	User, Pass string
+	Prompt     string
+	Out        string
+	state      int // 0 user name expected, 1 password expected, 2 logged in
+	line       []byte
+	user       string
+}
+
+func NewC06Login(ssh bool, user, pass, prompt string) *C06Login {
+	l := &C06Login{Pipe: NewPipe(), SSH: ssh, User: user, Pass: pass, Prompt: prompt}
+	l.Pipe.OnWrite = l.onWrite
+	return l
+}
+
+func (l *C06Login) GetInChannelAuthType() transport.InChannelAuthType {
+	if l.SSH {
+		return transport.InChannelAuthSSH
+	}
+	return transport.InChannelAuthTelnet
+}
+
+// GetSSHArgs satisfies transport.SSHImplementation (needed for the SSH flavour).
+func (l *C06Login) GetSSHArgs() *transport.SSHArgs { return &transport.SSHArgs{} }
+
+// Start emits the first question.
+func (l *C06Login) Start() {
+	l.Mu.Lock()
+	if l.SSH {
+		l.state = 1
+		l.user = l.User
+		l.Emit([]byte(l.User + "@h's password:"))
+	} else {
+		l.Emit([]byte("login:"))
+	}
+	l.Mu.Unlock()
+}
+
+func (l *C06Login) onWrite(b []byte) {
+	for _, ch := range b {
+		if ch != '\n' {
+			l.line = append(l.line, ch)
+			if l.state != 1 {
+				l.Emit([]byte{ch})
+			}
+			continue
+		}
+		line := string(l.line)
+		l.line = nil
+		switch l.state {
+		case 0:
+			l.user = line
+			l.state = 1
+			l.Emit([]byte("\nPassword:"))
+		case 1:
+			if l.user == l.User && line == l.Pass {
+				l.state = 2
+				l.Emit([]byte("\n\n" + l.Prompt))
+			} else {
+				l.state = 0
+				l.Emit([]byte("\nLogin incorrect\nlogin:"))
+			}
+		default:
+			out := ""
+			if line != "" {
+				out = l.Out
+			}
+			l.Emit([]byte("\n" + out + l.Prompt))
+		}
+	}
+}
+
+// LossyAuth is a Lossy whose simulator asks for in-channel authentication.
+type LossyAuth struct {
+	*Lossy
+	Login *C06Login
+}
+
+func NewLossyAuth(l *C06Login) *LossyAuth {
+	return &LossyAuth{Lossy: NewLossy(l, l.Pipe), Login: l}
+}
+
+func (a *LossyAuth) GetInChannelAuthType() transport.InChannelAuthType {
+	return a.Login.GetInChannelAuthType()
+}
+func (a *LossyAuth) GetSSHArgs() *transport.SSHArgs { return a.Login.GetSSHArgs() }
+
+// ThirdPartyClose closes the simulator from outside the library, now.
+func (l *Lossy) ThirdPartyClose() {
+	l.mu.Lock()
+	already := l.tpClosed
+	l.tpClosed = true
+	l.mu.Unlock()
+	if !already {
+		_ = l.Inner.Close()
+	}
 }
